@@ -233,6 +233,7 @@ def run(ctx):
     missing = ctx.regen(NEEDED)
     r = ctx.prove(['Properties/C10.v'])
     tie_ok = (not missing) and r['ok']
+    ctx.log('proofs built: %s' % r['ok'])
     found = False
     # ---- (a) lookup / bucketing
     probs, err = lookup_tie(ctx, 40 if ctx.quick else 300)
@@ -241,6 +242,7 @@ def run(ctx):
         kind = p.pop('kind')
         ctx.violation(p, found_input=(kind == 'impl')); found = True
     # ---- (b) gating, edge by edge on the real simulator + snapshot reference + kernel model
+    ctx.log('lookup tie done (%d problems)' % len(probs))
     fams, n_seeds, n_steps = plan(ctx)
     dumped, agg = [], {'edges': 0, 'gated_edges': 0, 'enabled_gated_domains': 0}
     for fi, (fam, dom) in enumerate(fams):
@@ -259,6 +261,7 @@ def run(ctx):
                 ctx.sample({'family': fam, 'domains': dom, 'design': res['info'], 'schedule': res['schedules']['natural'], 'edge_stats': st})
             if res['dump'] is not None: dumped.append(res)
     ctx.notes['gating_stats'] = agg
+    ctx.log('gating oracle done: %s' % agg)
     if not found and dumped:
         try:
             probs = []
